@@ -13,6 +13,10 @@ from harness.drivers.c02 import massy_annotation, adduct_string, NOARG
 
 ION_TYPES = ["p", "n", "a", "b", "c", "x", "y", "z", "ax", "ay", "az", "bx", "by", "bz", "cx", "cy", "cz", "i"]
 LABELS = ["13C", "15N", "18O", "D", "T"]
+# one modification, several alternatives: consistent and inconsistent, numeric first and named first
+ALTS = ["+42.5|Acetyl", "Acetyl|+42.5", "Obs:+79.978|Phospho", "Phospho|Obs:+79.978", "INFO:x|+12.5|Formula:C2",
+        "Formula:C2|+12.5", "U:+15.9|Oxidation", "Oxidation|U:+15.9", "+42.010565|Acetyl", "INFO:a|Methyl|INFO:b",
+        "+1.5|Obs:+2.5", "Glycan:Hex|+100", "+100|Glycan:Hex", "M:+14|Methyl", "Acetyl|Formula:C5", "Formula:C5|Acetyl"]
 
 
 def cap_multipliers(A, cap):
@@ -112,6 +116,21 @@ def run(tier, seed, rep):
             evs.append(agree_event(pp, f"a{i}", A, ion, zarg, iso, mono, adducts_arg, labelmods, via))
     res = core.validate_traces("Trace_Mass", evs, "C03")
     rep.add_trace("generated_annotations", evs, res, sig=sig)
+    # alternatives inside one modification, numeric and named in either order (C03_AlternativePrecedence)
+    evs = []
+    for i in range(3000 if thorough else 300):
+        A = anngen.empty("".join(rnd.choice("ACDEFGHIKLMNPQRSTVWY") for _ in range(rnd.randint(1, 6))))
+        n = len(A["seq"])
+        for slot in ("nterm", "cterm"):
+            if rnd.random() < 0.3:
+                A[slot] = [{"v": "s:" + rnd.choice(ALTS), "m": rnd.choice([1, 1, 2])}]
+        for p_ in sorted(rnd.sample(range(n), rnd.randint(0, min(n, 2)))):
+            A["internal"].append({"i": p_, "mods": [{"v": "s:" + rnd.choice(ALTS), "m": rnd.choice([1, 1, 2, 3])}]})
+        mono = rnd.random() < 0.6
+        evs.append(agree_event(pp, f"alt{i}", A, "p", rnd.choice([NOARG, 0, 1, 2, -1]), rnd.choice([0, 0, 1]), mono, "", False,
+                               "str" if i % 2 else "ann"))
+    res = core.validate_traces("Trace_Mass", evs, "C03")
+    rep.add_trace("alternatives_in_one_modification", evs, res, sig=sig)
     # vocabulary sweeps
     evs = []
     urows = [r_ for r_ in obo.unimod() if r_["comp"] is not None]
